@@ -14,9 +14,17 @@ the writer on arbitrary values take `ExtFloat.NoNewline` as an explicit
 hypothesis; the round-trip family is stated for float-free values
 (`wellFormed`), where the parameter is irrelevant (`write_floatfree_indep`).
 
+Floats enter the round-trip family through two named hypotheses about the
+parameter: `ExtFloat.Fixes F P` ("`F` writes the float texts in `P` verbatim
+and the reader takes each back as the float with that very text") and
+`ExtFloat.FmtParseFmt F` ("what `F` writes is stable under `F` and reads back
+as itself").  The identity formatter satisfies the first for `P = FloatLit`
+(`floats_nonvacuous`); serde_json's formatter is sampled by the harness.
+
 Obligations: `json_write_no_newline`, `json_write_no_newline_floatfree`,
 `json_first_byte`, `json_roundtrip`, `json_roundtrip_document`,
-`json_fixed_point`, `json_spellings_partial`, `json_frame_recover`,
+`json_roundtrip_floats`, `json_fixed_point`, `json_fixed_point_floats`,
+`json_spellings_partial`, `json_frame_recover`, `json_frame_recover_floats`,
 `json_slice_eq_reader_partial`, `json_slice_docs_prefix`,
 `json_reader_ok_is_utf8`, `json_unseparated_counterexample`,
 `json_depth_boundary`, `json_dash_not_value`.
@@ -73,6 +81,29 @@ theorem json_fixed_point (F : ExtFloat) (v : JVal) (hwf : wellFormed v = true)
     ∃ v', parseValue depthLimit (write F v) = .ok (v', []) ∧ write F v' = write F v :=
   ⟨v, json_roundtrip_document F v hwf hdepth, rfl⟩
 
+/-- The round trip with floats: for every well-formed value whose floats carry
+texts that `F` writes verbatim and that read back as themselves (`F.Fixes P`).
+After a top-level integer or float the next byte must not continue the number. -/
+theorem json_roundtrip_floats (F : ExtFloat) (P : List Nat → Prop) (hP : F.Fixes P) (v : JVal)
+    (hwf : WF P v) (hdepth : depthOf v < depthLimit) (rest : List Nat)
+    (hrest : needsEnd v = true → numEnd rest = true) :
+    parseValue depthLimit (write F v ++ rest) = .ok (v, rest) := by
+  have := (parse_write_gen F P hP).1 v hwf depthLimit rest (by decide) hrest
+  simpa [expectV, hdepth] using this
+
+/-- C06 with floats, under `ExtFloat.FmtParseFmt`: whatever float texts a value
+carries, what xt writes for it is read back as a value that is written the same
+way again. -/
+theorem json_fixed_point_floats (F : ExtFloat) (hF : F.FmtParseFmt) (v : JVal)
+    (hwf : WF (fun _ => True) v) (hdepth : depthOf v < depthLimit) :
+    ∃ v', parseValue depthLimit (write F v) = .ok (v', []) ∧ write F v' = write F v := by
+  obtain ⟨h1, h2, h3⟩ := (normF_spec F hF).1 v hwf
+  refine ⟨normF F v, ?_, h2⟩
+  have := json_roundtrip_floats F F.range hF.fixes (normF F v) h1 (by rw [h3]; exact hdepth) []
+    (fun _ => rfl)
+  rw [h2] at this
+  simpa using this
+
 /-! ## Spellings -/
 
 /-- `_partial`: the full C01 statement is "every escape form / `\u` surrogate
@@ -123,6 +154,12 @@ the slice loop (which also accepts the text as UTF-8). -/
 theorem json_frame_recover (F : ExtFloat) (docs : List JVal) (h : docsOk docs) :
     readerLoop (writeDocs F docs) = (docs, .ok) ∧ sliceLoop (writeDocs F docs) = (docs, .ok) :=
   ⟨readerLoop_writeDocs F docs h, sliceLoop_writeDocs F docs h⟩
+
+/-- The same with floats, under `F.Fixes P`. -/
+theorem json_frame_recover_floats (F : ExtFloat) (P : List Nat → Prop) (hP : F.Fixes P)
+    (docs : List JVal) (h : docsOkP P docs) :
+    readerLoop (writeDocs F docs) = (docs, .ok) ∧ sliceLoop (writeDocs F docs) = (docs, .ok) :=
+  ⟨readerLoop_writeDocsP F P hP docs h, sliceLoop_writeDocsP F P hP docs h⟩
 
 /-! ## Slice path vs reader path -/
 
@@ -267,6 +304,20 @@ example : hasUnseparatedScalar [0x31, 0x20, 0x32] = false := by
     rw [hasUnseparatedScalar_eq]; simp [skipWs, isWs, p2, isSelfDelim, endOk, h0]
   rw [hasUnseparatedScalar_eq]; simp [skipWs, isWs, p1, isSelfDelim, endOk, h1]
 
+/-- The float hypotheses are satisfiable: the identity formatter fixes every
+float literal, `1.5` is one, and a document with that float meets
+`json_roundtrip_floats`. -/
+theorem floats_nonvacuous :
+    (⟨id⟩ : ExtFloat).Fixes FloatLit ∧ FloatLit [0x31, 0x2E, 0x35] ∧
+    WF FloatLit (.arr [.float [0x31, 0x2E, 0x35], .str [0x61]]) :=
+  ⟨fun _ h => ⟨rfl, h⟩, floatLit_1_5, by simp [WF, WFList, floatLit_1_5, allScalars, isScalar]⟩
+
+example : parseValue depthLimit (write ⟨id⟩ (.arr [.float [0x31, 0x2E, 0x35], .str [0x61]])) =
+    .ok (.arr [.float [0x31, 0x2E, 0x35], .str [0x61]], []) := by
+  have := json_roundtrip_floats ⟨id⟩ FloatLit floats_nonvacuous.1 _ floats_nonvacuous.2.2 (by decide) []
+    (fun _ => rfl)
+  simpa using this
+
 /-- 127 arrays around a scalar, and 128. -/
 def nestArr : Nat → JVal → JVal
   | 0, v => v
@@ -306,6 +357,9 @@ example (F : ExtFloat) : readerLoop (write F (nestMix 128 (.int 7))) = ([], .err
 #print axioms json_roundtrip
 #print axioms json_roundtrip_document
 #print axioms json_fixed_point
+#print axioms json_roundtrip_floats
+#print axioms json_fixed_point_floats
+#print axioms json_frame_recover_floats
 #print axioms json_spellings_partial
 #print axioms json_frame_recover
 #print axioms json_slice_docs_prefix
